@@ -1,9 +1,9 @@
 SPECIFICATION MCSpec
 CONSTANTS
-  Msgs <- MsgsThorough
+  Msgs <- MsgsQuick
   MaxParts = 3
   MaxPartsH = 2
-  MaxDev = 1
+  MaxDev = 2
   Modes <- ModesAll
   KF_NestedAligned = FALSE
   KF_MapSlices = FALSE
